@@ -105,6 +105,12 @@ def explore_expand(P, u):
                 r = super().e_CallExpr(n, env)
                 ev = [e for e in self.ctx.events[before:] if e[0] == 'icall']
                 if ev:
+                    # contract of the handlers (checked by R19.2 fresh-token obligations): the token comes straight
+                    # from tokenize() of a fresh buffer, i.e. at_bol = true, has_space = false
+                    if isinstance(r, View):
+                        for c in r.cell.cands:
+                            if isinstance(c, Obj):
+                                c.fields['at_bol'] = 1; c.fields['has_space'] = 0; c.meta['fresh'] = True
                     self.ctx.emit('icallres', r, ev[-1][2], n.line, ev[-1][1])
                 return r
             return super().e_CallExpr(n, env)
@@ -148,8 +154,31 @@ def explore_subst(P, u, loop_limit=2):
         ctx.emit('call', 'read_macro_arg_one', args, n.line, res)
         return res
 
-    it = PInterp(P, u, {'opaque': ['stringize', 'paste', 'preprocess2', 'has_varargs', 'skip'],
-                        'cut': {'read_macro_arg_one': cut_rmao},
+    def fresh_token(it, ctx, n, args, name):
+        # stringize()/paste() return the first token of tokenize(new_file(..)): at_bol = true, has_space = false
+        res = Obj('Token', lazy=True, label=ctx.fresh(name))
+        res.fields['at_bol'] = 1
+        res.fields['has_space'] = 0
+        res.meta['fresh'] = True
+        return res
+
+    def cut_stringize(it, ctx, n, args):
+        res = fresh_token(it, ctx, n, args, 'stringize')
+        ctx.emit('call', 'stringize', args, n.line, res)
+        return res
+
+    def cut_paste(it, ctx, n, args):
+        from .lib_c09 import as_obj
+        res = fresh_token(it, ctx, n, args, 'paste')
+        lhs = as_obj(it, args[0], n) if args else None
+        if isinstance(lhs, Obj):
+            res.meta['lhs'] = lhs
+            res.meta['lhs_flags'] = {f: it.read_field(lhs, f) for f in ('at_bol', 'has_space')}
+        ctx.emit('call', 'paste', args, n.line, res)
+        return res
+
+    it = PInterp(P, u, {'opaque': ['preprocess2', 'has_varargs', 'skip'],
+                        'cut': {'read_macro_arg_one': cut_rmao, 'stringize': cut_stringize, 'paste': cut_paste},
                         'models': {'copy_token': m_copy_token, 'equal': make_equal_model(classes, False), 'find_arg': make_find_arg_model(classes)},
                         'loop_limit': loop_limit, 'track_stores': True, 'lazy_field': copy_lazy_field})
 
